@@ -21,7 +21,7 @@ CHECK = {'rule': 'Holders of the shared mutex service (goroutines calling Shared
                  'window',
                  "argument layer: a resource named under --wlock was asked for write access whatever else the lists contain; every session uses the "
                  "default lock namespace; list entries match pip:run's name pattern (malformed lists are not generated)"],
- 'essential_labels': {'all': ['pip-waitlock:waits-for-a-task-it-conflicts-with',
+ 'essential_labels': {'all': ['pip-waitlock:waits-for-a-task-it-conflicts-with', 'pip-waitlock:pipeline-failed',
                               'conflict-contended',
                               'deadlock-prone-pair',
                               'readers-shared-overlap',
